@@ -216,8 +216,7 @@ theorem cancelKindFor_none (Q : Item → Bool) (hQ : ∀ s c, Q ⟨aEvent, s, c,
     action is in `A` -/
 structure EvClosed (A : Nat → Bool) (R : World → Prop) : Prop where
   ev_only : ∀ {w w' : World}, R w → w'.ev = w.ev → R w'
-  sub : ∀ (w : World) (ev' : EvQ), ev'.pending.Sublist w.ev.pending → ev'.now = w.ev.now → ev'.counter = w.ev.counter →
-    R w → R { w with ev := ev' }
+  sub : ∀ (w : World) (ev' : EvQ), ev'.pending.Sublist w.ev.pending → R w → R { w with ev := ev' }
   sched : ∀ w a s sig t pri, A a = true → R w → R (sched w a s sig t pri).1
 
 section
@@ -236,12 +235,10 @@ theorem ec_evCancel (hA : A aEvent = true) (w : World) (x : Nat) (h : R w) : R (
   dsimp only
   split
   · apply ec_wakeEventWaiters hR hA
-    refine hR.ev_only (w := { w with ev := (cancel w.ev x).1 }) (hR.sub _ _ ?_ ?_ ?_ h) rfl
-    · rcases cancel_pending w.ev x with e | e <;> rw [e]
-      · exact List.Sublist.refl _
-      · exact List.filter_sublist
-    · exact cancel_now _ _
-    · unfold cancel; split <;> rfl
+    refine hR.ev_only (w := { w with ev := (cancel w.ev x).1 }) (hR.sub _ _ ?_ h) rfl
+    rcases cancel_pending w.ev x with e | e <;> rw [e]
+    · exact List.Sublist.refl _
+    · exact List.filter_sublist
   · exact h
 
 theorem ec_cancelAllFor (hA : A aEvent = true) (w : World) (z : Pid) (h : R w) : R (cancelAllFor w z) := by
@@ -524,5 +521,41 @@ theorem ec_condSignal (w : World) (g : Nat) (h : R w) : R (condSignal w g).1 := 
       exact foldl_inv R _ (fun w t hw => hR.sched _ _ _ _ _ _ hA.cond hw) _ _ h
 
 end
+
+/-- `ec_peel` extended with the blocking library calls -/
+syntax "ec_peel2 " term:max term:max term:max num : tactic
+open Lean in
+macro_rules
+  | `(tactic| ec_peel2 $hR $hA $h $n) => do
+    if n.getNat = 0 then `(tactic| fail "ec_peel2: out of fuel")
+    else
+      let m := Syntax.mkNumLit (toString (n.getNat - 1))
+      `(tactic| first
+          | ec_peel $hR $hA $h 8
+          | (with_reducible first
+              | apply ec_acquireStep $hR $hA
+              | apply ec_poolLoop $hR $hA
+              | apply ec_poolRollback $hR $hA
+              | apply ec_bufGetLoop $hR $hA
+              | apply ec_bufPutLoop $hR $hA
+              | apply ec_oqGetLoop $hR $hA
+              | apply ec_oqPutLoop $hR $hA
+              | apply ec_pqGetLoop $hR $hA
+              | apply ec_pqPutLoop $hR $hA
+              | apply ec_condSignal $hR $hA
+              | apply ec_signal $hR (AllButProc.res $hA)
+              | apply ec_guardWaitLeave $hR (AllButProc.event $hA) (AllButProc.res $hA)
+              | apply ec_cancelKindFor $hR (AllButProc.event $hA)
+              | apply ec_recordPool $hR
+              | apply ec_recordPQ $hR
+              | apply ec_setPoolInUse $hR
+              | apply ec_setHeldAmount $hR
+              | apply ec_removeHeld $hR
+              | apply ec_mk $hR
+              | apply ec_fail $hR
+              | apply ec_guardRemove $hR
+              | apply EvClosed.sched $hR _ _ _ _ _ _ (AllButProc.res $hA)
+            ) <;> ec_peel2 $hR $hA $h $m
+          | (split <;> ec_peel2 $hR $hA $h $m))
 
 end CimbaModel.Sim
